@@ -93,6 +93,12 @@ pub struct RlCase {
     /// callers (by index, mod 64) whose first poll starts on an exhausted cooperative budget
     #[serde(default)]
     pub starve_mask: u64,
+    /// a window that (practically) never ends: refresh_period = 1 Duration::MAX, 2 u64::MAX s,
+    /// 3 i64::MAX s, 4 three hundred years (0 = the case's ordinary period). Callers still arrive
+    /// at instants derived from the ordinary period. At most limit_for_period calls are ever
+    /// admitted; all others are rejected in their arrival instant.
+    #[serde(default)]
+    pub period_huge: u8,
 }
 
 #[derive(Clone, Debug, Serialize, Deserialize)]
@@ -129,6 +135,7 @@ fn stress_strategy(tier: Tier) -> BoxedStrategy<RlCase> {
             listeners: false,
             drop_services: false,
             starve_mask: 0,
+            period_huge: 0,
             stress: Some(RlStress {
                 window,
                 threads,
@@ -291,10 +298,11 @@ fn case_strategy(tier: Tier) -> BoxedStrategy<RlCase> {
             prop::bool::weighted(0.3),
             prop::bool::weighted(0.25),
             prop_oneof![4 => Just(0u64), 1 => (0u64..64).prop_map(|k| 1 << k), 1 => any::<u64>()],
+            prop_oneof![12 => Just(0u8), 1 => 1u8..=4],
         ),
     )
         .prop_map(
-            |(window, limit, period, timeout, clones, callers, order, stall, (timeout_forever, setter_order, build_offset_us, busy, listeners, drop_services, starve_mask))| RlCase {
+            |(window, limit, period, timeout, clones, callers, order, stall, (timeout_forever, setter_order, build_offset_us, busy, listeners, drop_services, starve_mask, period_huge))| RlCase {
                 window,
                 limit,
                 period,
@@ -310,6 +318,7 @@ fn case_strategy(tier: Tier) -> BoxedStrategy<RlCase> {
                 stress: None,
                 drop_services,
                 starve_mask,
+                period_huge,
                 stall,
             },
         )
@@ -394,7 +403,127 @@ pub fn partition_witness(adm: &[u64], limit: usize, p: u64) -> Option<Vec<usize>
 }
 
 pub fn run_rl(case: &RlCase) -> Verdict {
+    if case.period_huge != 0 {
+        return sim::run_case(interp_never_ending(case));
+    }
     sim::run_case(interp(case))
+}
+
+/// The window never ends (see `RlCase::period_huge`): a plain history of arrivals, no
+/// cancellations or stalls.
+async fn interp_never_ending(case: &RlCase) -> Verdict {
+    let mut v = Verdict::default();
+    let log = Log::new();
+    let mut sim = Sim::new(log.clone(), case.order.clone());
+    let p = case.period;
+    let limit = case.limit;
+    let timeout = case.timeout.ms(p);
+    let lats: Vec<u64> = case.callers.iter().map(|c| c.lat).collect();
+    let inner = Scripted::new(log.clone(), 1, move |req, _, _| {
+        Step::ok(lats.get(req.id as usize).copied().unwrap_or(0))
+    });
+    let huge = match case.period_huge {
+        1 => Duration::MAX,
+        2 => Duration::from_secs(u64::MAX),
+        3 => Duration::from_secs(i64::MAX as u64),
+        _ => Duration::from_secs(300 * 365 * 86_400),
+    };
+    let layer = RateLimiterLayer::builder()
+        .limit_for_period(limit)
+        .refresh_period(huge)
+        .timeout_duration(Duration::from_millis(timeout))
+        .window_type(match case.window {
+            0 => WindowType::Fixed,
+            1 => WindowType::SlidingLog,
+            _ => WindowType::SlidingCounter,
+        })
+        .build();
+    let base = layer.layer(inner.clone());
+    let mut clones: Vec<_> = (0..case.clones).map(|_| base.clone()).collect();
+    let n = case.callers.len();
+    let mut at = vec![0u64; n];
+    let mut acc = 0u64;
+    for (i, c) in case.callers.iter().enumerate() {
+        acc += c.gap.ms(p);
+        at[i] = acc;
+    }
+    let horizon = acc + timeout + 40;
+    let mut task: Vec<Option<usize>> = vec![None; n];
+    for t in 0..=horizon {
+        if t > 0 {
+            sim.begin_instant().await;
+        }
+        for i in 0..n {
+            if at[i] == t {
+                let req = Req {
+                    id: i as u32,
+                    key: 0,
+                    tag: 0xA000 + i as u64,
+                };
+                let s = &mut clones[(case.callers[i].clone % case.clones) as usize];
+                let _ = futures::future::poll_fn(|cx| s.poll_ready(cx)).await;
+                let fut = Box::pin(s.call(req));
+                task[i] = Some(sim.spawn_call(fut, map_outcome));
+            }
+        }
+        sim.settle().await;
+    }
+    let snap = log.snapshot();
+    let entered: Vec<usize> = snap
+        .iter()
+        .filter_map(|e| match e {
+            Ev::Enter { req, .. } => Some(req.id as usize),
+            _ => None,
+        })
+        .collect();
+    let wname = ["fixed window", "sliding log", "sliding counter"][case.window as usize % 3];
+    if entered.len() > limit {
+        v.c02.push(format!(
+            "{wname}, refresh_period {huge:?} (the window never ends): {} calls reached the wrapped service, limit_for_period = {limit}",
+            entered.len()
+        ));
+    }
+    if entered.len() < limit.min(n) {
+        v.c15.push(format!(
+            "{wname}, refresh_period {huge:?}: only {} of the first {} calls were admitted although the window had spare capacity",
+            entered.len(),
+            limit.min(n)
+        ));
+    }
+    for i in 0..n {
+        let Some(tk) = task[i] else { continue };
+        let resolve = snap.iter().find_map(|e| match e {
+            Ev::Resolve { t, task, out } if *task == tk => Some((*t, out.clone())),
+            _ => None,
+        });
+        let was_admitted = entered.contains(&i);
+        match resolve {
+            Some((_, Outcome::Ok { req, .. })) if was_admitted && req.id == i as u32 => {}
+            Some((rt, Outcome::Layer(_))) if !was_admitted => {
+                if rt > at[i] + timeout {
+                    v.c15.push(format!(
+                        "{wname}, refresh_period {huge:?}: caller {i} arrived at t={} and was rejected at t={rt}, timeout_duration {timeout} ms",
+                        at[i]
+                    ));
+                }
+            }
+            other => v.c15.push(format!(
+                "{wname}, refresh_period {huge:?}: caller {i} (arrival {}, admitted: {was_admitted}) ended as {other:?}",
+                at[i]
+            )),
+        }
+    }
+    for (task, msg) in &sim.unexpected_panics {
+        let m = format!("{wname}, refresh_period {huge:?}: the limiter panicked in task {task}: {msg}");
+        v.c02.push(m.clone());
+        v.c15.push(m);
+    }
+    v.classes.push("window_that_never_ends");
+    v.classes.push(["fixed", "sliding_log", "sliding_counter"][case.window as usize % 3]);
+    v.nontrivial_c02 = n > limit;
+    v.nontrivial_c15 = n > limit;
+    v.log = snap;
+    v
 }
 
 async fn interp(case: &RlCase) -> Verdict {
